@@ -191,6 +191,55 @@ def r01_3(prog, out):
             out.violation(key, bi.loc(ins[0].bb), "what is appended to the backlog is not derived from the posted messages")
 
 
+def batch_pop(prog, bi, sl, bid, e, recs):
+    """the backlog hands out a *collection* of messages at once (a whole batch, a drained prefix): (verdict, why, site) or None
+    when the pop yields a single message.  Every message of the collection has to reach a record: the collection is iterated
+    to its end by a loop whose every iteration records, and is not cut on the way (take / skip / filter on a drain loses what
+    it does not yield)."""
+    lb, lbb = e.leaf()
+    li = prog.info(lb)
+    t = li.call_at(lbb) if li is not None else None
+    if t is None or t.dest is None or not t.dest.is_local():
+        return None
+    ty = li.body.local_ty(t.dest.local) or ""
+    coll = ("VecDeque<" in ty or "Vec<" in ty or "Drain<" in ty) and "TopicMessage" in ty
+    if not coll:
+        return None
+    CUT = {"take", "take_while", "skip", "skip_while", "step_by", "filter", "filter_map", "map_while", "nth", "truncate", "split_off"}
+    rec = recs[0]
+    rt = bi.call_at(rec.bb)
+    s = sl.of(bid, rt.args[1]) if rt is not None and len(rt.args) > 1 else None
+    if s is None or (lb, lbb) not in s.sites and not (s.calls & {t.callee.target, t.callee.path}):
+        return ("violation", "the delivery recorded as outstanding does not carry a message of the batch taken from the backlog", bi.loc(rec.bb))
+    cut = {c.split("::")[-1] for c in s.calls} & CUT
+    # a cut *inside* the collection's own take (`drain(..limit)`) is the take itself; a cut between the take and the record is not
+    between = set()
+    for (sb, sbb) in s.sites:
+        si = prog.info(sb)
+        c = si.call_at(sbb) if si is not None else None
+        if c is not None and c.callee is not None and c.callee.path.split("::")[-1] in CUT and (sb, sbb) != (lb, lbb):
+            o = si.trace(c.args[0]) if c.args else None
+            between.add(c.callee.path.split("::")[-1])
+    if between:
+        return ("violation", "the batch taken from the backlog is cut by %s() before its messages are recorded: what the cut does not yield has left the backlog and is "
+                "neither delivered nor requeued" % sorted(between)[0], bi.loc(rec.bb))
+    loops = bi.cfg.loops()
+    inner = [blocks for h, blocks in loops.items() if rec.bb in blocks]
+    if not inner:
+        return ("undecided", "a batch is taken from the backlog and recorded outside a loop over it", bi.loc(rec.bb))
+    blocks = min(inner, key=len)
+    nexts = [bb for bb, c in bi.calls(lambda c: c.path == "std::iter::Iterator::next") if bb in blocks]
+    if not nexts:
+        return ("undecided", "a batch is taken from the backlog; the loop that records its messages is not an iterator loop", bi.loc(rec.bb))
+    from props.c02 import some_arm, iteration_exits
+    start = some_arm(bi, nexts[0])
+    esc = bi.cfg.escapes(start, {r.bb for r in recs}, iteration_exits(bi, nexts[0]), after=False) if start is not None else None
+    if start is None or esc is not None:
+        return ("violation", "a message of a batch taken from the backlog can leave the recording loop's iteration without being recorded as outstanding",
+                bi.loc(esc[-1]) if esc else bi.loc(nexts[0]))
+    return ("holds", "the backlog hands out a batch; every message of it is recorded as outstanding by the loop over the batch", bi.loc(rec.bb))
+
+
 @rule("C01", "R01.4", "a message popped from the backlog is recorded as outstanding before the next pop or return", floor=1)
 @rule("C03", "R01.4", "a message popped from the backlog is recorded as outstanding before the next pop or return", floor=1)
 def r01_4(prog, out):
@@ -212,6 +261,11 @@ def r01_4(prog, out):
                 continue
             if not recs:
                 out.violation(key, bi.loc(e.bb), "messages popped from the backlog are never recorded as outstanding: an unacked message is lost for good")
+                continue
+            batch = batch_pop(prog, bi, sl, bid, e, recs)
+            if batch is not None:
+                verdict, why, site = batch
+                (out.holds if verdict == "holds" else out.undecided if verdict == "undecided" else out.violation)(key, site, why)
                 continue
             start = some_arm(bi, e.bb)
             rec_bbs = {r.bb for r in recs}
@@ -437,6 +491,16 @@ def r01_6(prog, out):
                 pid2 = prog.qual(x, x.parent)
                 flow.append(pid2)
                 x = prog.facts.body(pid2)
+            # ... or the body that spawns this coroutine as a task (`tokio::spawn(registration.attach_or_release())`), and its parents
+            mine = {bid, b.root or bid} | set(prog.facts.children(b.root or bid))
+            for sb in prog.facts.lib_bodies():
+                si = prog.info(sb.id)
+                if any(sp.task in mine for sp in si.spawns if sp.task):
+                    y = sb
+                    while y is not None:
+                        if y.id not in flow:
+                            flow.append(y.id)
+                        y = prog.facts.body(prog.qual(y, y.parent)) if y.parent else None
             ins = None
             for f in flow:
                 es = [e for e in prog.effects(f) if e.touches(submap) and e.kind in L.INSERT_KINDS]
@@ -459,6 +523,18 @@ def r01_6(prog, out):
             if topic_args:
                 o2 = fi.trace(topic_args[0])
                 same = topic_origin_name(prog, bi, recv) == topic_origin_name(prog, fi, o2) and topic_origin_name(prog, fi, o2) is not None
+            if not same and topic_args:
+                # the topic travels to the attach inside a value built in the create flow (`Registration { subscription, topic }`)
+                want = topic_origin_name(prog, fi, fi.trace(topic_args[0]))
+                for p in reversed(recv.path or ()):
+                    if isinstance(p, tuple) and len(p) >= 3 and p[0] == "f" and str(p[2]).startswith("crate::"):
+                        for (cb, cbb, _i, rv2) in prog.constructions(p[2]):
+                            names2 = rv2.j.get("fields") or []
+                            if cb in flow and p[1] in names2:
+                                ci2 = prog.info(cb)
+                                if want is not None and topic_origin_name(prog, ci2, ci2.trace(rv2.ops[names2.index(p[1])])) == want:
+                                    same = True
+                        break
             if same:
                 out.holds(key, bi.loc(bb), "the subscription is attached to the same Arc<Topic> it was created with")
             else:
